@@ -223,7 +223,7 @@ VARIANTS = [
     V("C13", "attribute rendered with class docstring", GEN, "            docstring = self._create_sds_docstring(attribute.docstring, inner_indentations)", "            docstring = self._create_sds_docstring(attributes[0].docstring, inner_indentations)", "C13.SAME-SUBJECT"),
     V("C13", "function comment without node", GEN, "        docstring = self._create_sds_docstring(function.docstring, indentations, function)", "        docstring = self._create_sds_docstring(function.docstring, indentations)", "C13.SAME-SUBJECT"),
     V("C13", "class documentation of base", VIS, "        docstring = self.docstring_parser.get_class_documentation(node)\n\n        # Variance", "        docstring = self.docstring_parser.get_class_documentation(node.info.defn)\n\n        # Variance", "C13.SAME-SUBJECT"),
-    V("C13", "module docstring last string", VIS, "                docstring = definition.expr.value\n                break\n", "                docstring = definition.expr.value\n", "C13.MODULE-DOC"),
+    V("C13", "module docstring last string", VIS, "        for definition in get_mypyfile_definitions(node)[:1]:\n", "        for definition in get_mypyfile_definitions(node):\n", "C13.MODULE-DOC"),
     V("C13", "ellipsis replaced in prompt lines", GEN, "example_part.replace('>>>', '//', 1)}", "example_part.replace('>>>', '//', 1).replace('...', '//')}", "C13.EXAMPLE-LINES"),
     V("C13", "param description of first parameter", GEN, "                    param_desc = parameter.docstring.description\n", "                    param_desc = parameters[0].docstring.description\n", "C13.COMMENT-PARTS"),
     V("C13", "unparse round trip", DP, "<<unparse>>", "", None),
@@ -610,4 +610,14 @@ VARIANTS += [
       "        if isinstance(parent, Class) and (name == \"__init__\" or not is_internal(name)):\n            return parent.is_public\n", "C04.PUBLICITY-TABLE"),
     V("C05", "fallback class of a tuple type ignored again", VIS,
       "            if fallback.fullname != \"builtins.tuple\":", "            if False:", "C05.CTOR-TABLE"),
+]
+VARIANTS += [
+    V("C13", "module docstring searched behind other statements again", VIS,
+      "        for definition in get_mypyfile_definitions(node)[:1]:\n            if isinstance(definition, mp_nodes.ExpressionStmt) and isinstance(definition.expr, mp_nodes.StrExpr):\n                docstring = definition.expr.value\n",
+      "        for definition in get_mypyfile_definitions(node):\n            if definition.__class__.__name__ in {\"FuncDef\", \"Decorator\", \"ClassDef\", \"AssignmentStmt\"}:\n                continue\n            if isinstance(definition, mp_nodes.ExpressionStmt) and isinstance(definition.expr, mp_nodes.StrExpr):\n                docstring = definition.expr.value\n                break\n",
+      "C13.MODULE-DOC"),
+    V("C13", "benign: first statement of the module taken by index", VIS,
+      "        for definition in get_mypyfile_definitions(node)[:1]:\n            if isinstance(definition, mp_nodes.ExpressionStmt) and isinstance(definition.expr, mp_nodes.StrExpr):\n                docstring = definition.expr.value\n",
+      "        definitions = get_mypyfile_definitions(node)\n        if definitions and isinstance(definitions[0], mp_nodes.ExpressionStmt) and isinstance(definitions[0].expr, mp_nodes.StrExpr):\n            docstring = definitions[0].expr.value\n",
+      None),
 ]
